@@ -118,6 +118,14 @@ impl Property for C04 {
         util::reset_all();
         Some(Ok((n as u64, serde_json::json!({"many_resources_sweep": {"distinct_resources_in_one_process": n, "judged": judged}}))))
     }
+    /// replay of a failure of the many-resources sweep (no byte string exists for it)
+    fn run_decoded(&self, decoded: &serde_json::Value, _cfg: &RunCfg) -> Option<Verdict> {
+        decoded.get("resources")?;
+        match self.extra(Tier::Quick)? {
+            Err(f) => Some(Verdict::Fail(f)),
+            Ok(_) => Some(Verdict::Pass(CaseReport { nontrivial: true, classes: vec!["many-resources-sweep"], digest: 0, decoded: Some(decoded.clone()), known_hits: vec![], counters: vec![] })),
+        }
+    }
     fn rule(&self) -> String {
         "bytes -> 2-3 resources (the last one, in a third of the cases, named by the empty string or by a name with unicode, blanks, the separator and a line break), optional rule of one family (flow reject, isolation, hotspot concurrency, error-count breaker, system concurrency, flow throttling and hotspot QPS throttling that queue some entries, hotspot QPS reject, flow warm-up) on resource 0 / globally, 4-60 steps build(dt, resource, inbound|outbound, batch 1..5) / exit(dt, any open entry, with or without error); decisions are taken as observed, the accounting is compared after every step with an InFlight+event-list model on every resource node and on the global inbound node (current_concurrency, 10 s window Pass/Block/Complete/Error/Rt sums, default-window sums/qps/avg_rt/min_rt); plus (coverage.extra) one process with 10 300 distinct resources, each built and exited once, the last 300 and every 97th judged; non-trivial = >=1 blocked build, >=2 entries open at once on one resource, >=1 exit in a later bucket than its build, both traffic types present; distinct = distinct decoded cases".into()
     }
